@@ -12,8 +12,10 @@ The repo's interpreter (/venv/bin/python) has no numpy, so the implementation si
                  file, ensure_native_byte_order auto/False, mmap_mode r/r+/c/w+) judged by dtype/shape/flags/tobytes
   views        : memmap-backed views through `_reduce_memmap_backed` (model: `reduce`), rebuilt in an isolated
                  process each (a wrong offset can SIGSEGV) and compared with the original
-  parallel<i>  : `Parallel(n_jobs=2, max_nbytes=…)` with thresholds around the array size, loky and threading: the
-                 values seen inside the tasks; which arrays travel as memmaps (model: `forward`)
+  parallel<i>  : `Parallel(n_jobs=2, max_nbytes=…, mmap_mode=…)` with thresholds just below / at / above the array size,
+                 None, 0, '1K'-style strings and the default; loky, multiprocessing and threading; numeric, plain-object
+                 and structured / sub-array dtypes holding objects: the values seen inside the tasks (never an
+                 exception); which arrays travel as memmaps (model: `forward`)
 This module only pipes the requests to the Lean driver, diffs, and folds the counters.
 """
 
@@ -40,6 +42,8 @@ REQUIRED_THEOREMS = [
     "C19.mmap_offset_is_data_start",
     "C19.mmap_pointer_aligned",
     "C19.order_choice",
+    "C19.object_arrays_are_never_memmapped",
+    "C19.forward_decision",
     "C19.reduce_offset",
     "C19.reduce_strided_faithful",
     "C19.reduce_contiguous_faithful",
@@ -67,7 +71,7 @@ TRUSTED_EXTRA = [
 
 WORKER = Path(__file__).resolve().parent.parent / "c19_worker.py"
 N_DUMP_SHARDS = 8
-N_PAR_SHARDS = 3
+N_PAR_SHARDS = 6
 
 
 def _run_part(ctx, part, replay_path=None):
